@@ -1,7 +1,7 @@
 (* C15 driver: same input lines as harness/h_rat.cc ("[!]op modeA A modeB B"; modes and '!' are
    ignored: the model has no hidden state), prints the model's result in the harness' format:
      R <W|B> num/den hash     I <int>     E <error>
-   for gcd / lcm additionally " | <result of the repaired variant>". *)
+   for gcd / lcm / divexact additionally " | <result of the repaired variant>". *)
 open Rat_model
 let rec pos_of_bits = function
   | [] -> failwith "zero" | [true] -> XH
@@ -79,7 +79,7 @@ let () =
             | "lcm" -> show_res (fr_lcm a b) ^ " | " ^ show_res (fr_lcm_fixed a b)
             | "fdiv" -> show_res (fr_fdiv_q a b)
             | "mod" -> show_res (fr_mod a b)
-            | "divexact" -> show_res (fr_divexact a b)
+            | "divexact" -> show_res (fr_divexact a b) ^ " | " ^ show_res (fr_divexact_fixed a b)
             | _ -> "BAD"
           end in
         print_endline out
